@@ -16,7 +16,7 @@ Docs == {{}, {"None"}, {"False"}, {"any"}}
 
 Init ==
     /\ \E n \in 1..MaxN, proto \in Protos, nr \in NRetries, d \in Docs, nx \in BOOLEAN :
-          (nx => d # {}) /\
+          (nx => d = {"None"}) /\
           P = [proto |-> proto, nRetry |-> nr, clean |-> [i \in 1..n |-> i],
                cleanRet |-> [kind |-> "ok", errno |-> 0, val |-> "v"], doc |-> d, gone |-> FALSE, noraise |-> nx]
     /\ sc \in Scripts(MaxN, Bursts)
